@@ -39,7 +39,8 @@ VARIABLES l
 TInit == l = 1
 TNext == /\ l <= Len(Trace)
          /\ LET e == Trace[l] IN
-            IF (IF e.kind = "c16" THEN C16OK(e) ELSE Observed(e) = Expected(e)) THEN TRUE
+            \* (a vector on which the code under test panicked has no result to compare: that is the violation)
+            IF "panic" \notin DOMAIN e.out /\ (IF e.kind = "c16" THEN C16OK(e) ELSE Observed(e) = Expected(e)) THEN TRUE
             ELSE PrintT(ToJson([viol |-> e.kind, id |-> e.id, line |-> l]))
          /\ l' = l + 1
 TSpec == TInit /\ [][TNext]_l
